@@ -24,6 +24,22 @@ N = 3
 B = 'FixedArray<int>: every length 0..%d, stride 1..2, writable or not, direct or masked view with arbitrary valid mask indices, arbitrary contents' % N
 
 
+def import_replay(chk, ob, inp, r):
+    """native confirmation with a real Python exporter (array.array / bytes reshaped through memoryview.cast) under ASan"""
+    import os
+    from vf.common import VERIF, run, must, PYSRC, SRC
+    from vf.build import config_dir
+    exe = os.path.join(chk.wd, 'replay_import')
+    if not os.path.exists(exe):
+        must(['g++', '-std=c++17', '-O1', '-g', '-fsanitize=address', '-fno-omit-frame-pointer', '-w', '-I', config_dir(chk.wd), '-I', SRC, '-I', PYSRC, '-I', '/usr/include/python3.11',
+              os.path.join(VERIF, 'harness', 'c19', 'replay_import.cpp'), '-o', exe, '-lboost_python311', '-lpython3.11'], timeout=900)
+    env = dict(os.environ); env['ASAN_OPTIONS'] = 'detect_leaks=0'
+    import subprocess
+    p = subprocess.run([exe, inp, 'f' if ob.func.endswith('_f') else 'v3f'], capture_output=True, text=True, timeout=120, env=env)
+    out = p.stdout + p.stderr
+    return (p.returncode != 0 and ('REPLAY-FAIL' in out or 'AddressSanitizer' in out)), out
+
+
 def buffer_replay(chk, ob, inp, r):
     tag = ob.func[len('h_buf_'):]
     with _lock:
@@ -64,6 +80,13 @@ def build(chk):
         o = eb.ob('O5.buffer_description.%s' % t, 'c19/buffer.c', 'h_buf_' + t, 'buffer export of FixedArray<%s>: itemsize, ndim, shape, strides, readonly, buf and len describe exactly the array memory (len == length*stride*sizeof(element); contiguous: product of shape * itemsize)' % nm,
                   unwind=4, timeout=120, bounds='all lengths 0..8, strides 1..3, writable or not', backends=('minisat', 'kissat'))
         o.custom_replay = buffer_replay
+        chk.add(o)
+    eb.variant('imp', only=['w_from_buffer_f', 'w_from_buffer_v3f'])
+    for t, nm in (('f', 'float'), ('v3f', 'V3f')):
+        o = eb.ob('O5.buffer_import.%s' % t, 'c19/buffer.c', 'h_import_' + t, 'fixedArrayFromBuffer<FixedArray<%s>>: from ANY well-formed contiguous exporter description it either raises (view released) or returns an array holding exactly the source elements; buffers whose element format or total size do not match are rejected; no read of the source or write of the new array out of bounds' % nm,
+                  variant='imp', defines=('IMPORT_HARNESS',), unwind=50, timeout=900, bounds='ndim 1..2, shape[0] <= 2, shape[1] <= 3, itemsize 1/2/4/8, one-character formats f d i h B l and a byte-order prefix, arbitrary contents; exporter contract: len == product(shape)*itemsize, C-contiguous',
+                  backends=('kissat', 'minisat', 'cadical'), extra=('--object-bits', '12'))
+        o.custom_replay = import_replay
         chk.add(o)
     # ---- FixedVArray rows
     ev = EngB(chk, 'pyvarray', py=True, validate=False)
